@@ -42,6 +42,7 @@ type step struct {
 type behaviour struct {
 	NG    int    `json:"ng"`
 	Buf   int    `json:"buf"` // DownloadBufferSize of the syncer (0 = 100)
+	Lag   int    `json:"lag"` // the node's L1 info tree syncer is behind: the first Lag look-ups of every GER find nothing yet (< retry limit)
 	Steps []step `json:"steps"`
 }
 
@@ -186,7 +187,7 @@ func (r *run) start() error {
 	if buf <= 0 {
 		buf = 100
 	}
-	s, err := lastgersync.New(ctx, r.dbPath, r.det, r.cl, gerAddr, r.l1,
+	s, err := lastgersync.New(ctx, r.dbPath, r.det, r.cl, gerAddr, &lagL1{L1InfoTreeSync: r.l1, lag: r.b.Lag, seen: map[common.Hash]int{}},
 		time.Millisecond, 3, aggkittypes.LatestBlock, time.Millisecond, buf, true, lastgersync.PP)
 	if err != nil {
 		cancel()
@@ -493,4 +494,24 @@ func (r *run) play(id int) error {
 	}
 	r.w.Emit(tr.M{"ev": "end", "drifts": r.drifts})
 	return r.stop()
+}
+
+// lagL1 is the node's L1 info tree syncer seen while it is still catching up: a GER is found only from the (lag+1)-th
+// look-up on (the leaf exists on L1; the syncer has not stored it yet).
+type lagL1 struct {
+	*l1infotreesync.L1InfoTreeSync
+	mu   gosync.Mutex
+	lag  int
+	seen map[common.Hash]int
+}
+
+func (l *lagL1) GetInfoByGlobalExitRoot(ger common.Hash) (*l1infotreesync.L1InfoTreeLeaf, error) {
+	l.mu.Lock()
+	n := l.seen[ger]
+	l.seen[ger] = n + 1
+	l.mu.Unlock()
+	if n < l.lag {
+		return nil, db.ErrNotFound
+	}
+	return l.L1InfoTreeSync.GetInfoByGlobalExitRoot(ger)
 }
